@@ -352,33 +352,30 @@ Print Assumptions C01_out_but_survives.
 
 (** Every command and API reader gets its Newick trees through utils.ReadMultiTrees:
     bufio.Reader.ReadLine chunks ([phys_reads], any buffer size), joined by
-    fileutils.ReadUntilSemiColon ([read_until_semicolon]), then the parser ([read_multi]).
-    For every tree inside the quantifier whose text has no line feed (this reader is line
-    based), for every buffer size >= 2 (bufio's minimum is 16, its default 4096): if the last
-    chunk handed out is a complete read ([last_complete]: the text does not end exactly at the
-    end of a chunk), exactly one record is delivered, id 0, the tree of [C01_parse_write].
-    A reader that stops at a ';' ending a chunk inside a comment, or that forgets a chunk,
-    contradicts this statement. *)
+    fileutils.ReadUntilSemiColon ([read_until_semicolon], with fix b303e0a), then the parser
+    ([read_multi]).  For every tree inside the quantifier whose text has no line feed (this
+    reader is line based), for every buffer size (a one-byte buffer cannot get past a carriage
+    return; bufio's minimum is 16, its default 4096) and every text length -- also an exact
+    multiple of the buffer size -- exactly one record is delivered, id 0, the tree of
+    [C01_parse_write].  A reader that stops at a ';' ending a chunk inside a comment, that
+    forgets a chunk, or that reports EOF for a text ending with its last chunk (the code
+    before b303e0a) contradicts this statement. *)
 Theorem C01_glue_read :
   forall (fmt : Q -> string) (numeric : string -> bool) (parse_num : string -> option Q) (numok : Q -> bool),
     strconv_ok fmt numeric parse_num numok ->
     forall (bufsz : nat) (t : utree),
-      2 <= bufsz -> wfN numeric numok t = true -> no_lf (write fmt t) = true ->
-      last_complete (phys_reads (S (String.length (write fmt t))) bufsz (write fmt t)) = true ->
+      1 <= bufsz -> (bufsz = 1 -> no_cr (write fmt t) = true) ->
+      wfN numeric numok t = true -> no_lf (write fmt t) = true ->
       read_multi (nparse numeric parse_num) (phys_reads (S (String.length (write fmt t))) bufsz (write fmt t)) =
       MDone [ITree 0 (canon_root fmt parse_num t)].
 Proof. exact glue_read. Qed.
 Print Assumptions C01_glue_read.
 
-(** without carriage returns the chunks are the consecutive pieces of the text and the
-    condition is on the length alone *)
 Theorem C01_glue_read_length :
   forall (fmt : Q -> string) (numeric : string -> bool) (parse_num : string -> option Q) (numok : Q -> bool),
     strconv_ok fmt numeric parse_num numok ->
     forall (bufsz : nat) (t : utree),
-      2 <= bufsz -> wfN numeric numok t = true ->
-      no_lf (write fmt t) = true -> no_cr (write fmt t) = true ->
-      String.length (write fmt t) mod bufsz <> 0 ->
+      2 <= bufsz -> wfN numeric numok t = true -> no_lf (write fmt t) = true ->
       read_multi (nparse numeric parse_num) (phys_reads (S (String.length (write fmt t))) bufsz (write fmt t)) =
       MDone [ITree 0 (canon_root fmt parse_num t)].
 Proof. exact glue_read_length. Qed.
@@ -386,47 +383,40 @@ Print Assumptions C01_glue_read_length.
 
 (** the executable model with the buffer of bufio.NewReader *)
 Theorem C01_glue_model : forall t,
-    wfC t = true -> no_lf (write_go t) = true -> no_cr (write_go t) = true ->
-    String.length (write_go t) mod (64 * 64) <> 0 ->
+    wfC t = true -> no_lf (write_go t) = true ->
     glue_go (64 * 64) (write_go t) = MDone [ITree 0 (canon_root fmt_go parse_numC t)].
 Proof.
-  intros t H1 H2 H3 H4.
+  intros t H1 H2.
   apply (glue_read_length fmt_go numericC parse_numC numokC strconv_ok_C (64 * 64) t); try assumption.
   apply Nat.leb_le. reflexivity.
 Qed.
 Print Assumptions C01_glue_model.
 
-(** The side condition cannot be dropped: the statement without it is false of the faithful
-    model, and of the code (ReadLine reports a text that ends exactly at the end of a chunk as
-    a prefix, the next call reports io.EOF, ReadUntilSemiColon returns the complete text
-    together with EOF and ReadMultiTrees reports EOF instead of the tree: observed on the
-    real code for texts of 4096 and 8192 bytes without final newline). *)
-Theorem C01_glue_refuted :
-  exists (bufsz : nat) (t : utree),
-    2 <= bufsz /\ wfC t = true /\ no_lf (write_go t) = true /\ no_cr (write_go t) = true /\
-    String.length (write_go t) mod bufsz = 0 /\
-    glue_go bufsz (write_go t) = MDone [IErr 0 "EOF"].
-Proof.
-  exists 6, (root2 (S_ e_ (tip "A")) (S_ e_ (tip "B"))).
-  split; [apply Nat.leb_le; reflexivity|]. vm_compute. repeat split; reflexivity.
-Qed.
-Print Assumptions C01_glue_refuted.
+(** the case that the code before fix b303e0a lost (reported EOF): a text that ends exactly
+    with a chunk, here 6 bytes read through buffers of 6, 3 and 2 bytes *)
+Example C01_glue_text_fills_last_chunk :
+  let t := root2 (S_ e_ (tip "A")) (S_ e_ (tip "B")) in
+  wfC t = true /\ write_go t = "(A,B);" /\
+  glue_go 6 (write_go t) = MDone [ITree 0 (canon_root fmt_go parse_numC t)] /\
+  glue_go 3 (write_go t) = MDone [ITree 0 (canon_root fmt_go parse_numC t)] /\
+  glue_go 2 (write_go t) = MDone [ITree 0 (canon_root fmt_go parse_numC t)].
+Proof. vm_compute. repeat split; reflexivity. Qed.
+Print Assumptions C01_glue_text_fills_last_chunk.
 
 (** non-vacuity: a comment with ';' cut by every chunk boundary of a 4-byte buffer, and a
-    text with carriage returns (hypothesis [last_complete] of the general form) *)
+    text with carriage returns *)
 Example C01_glue_example :
   let t := root2 (S_ (mkE (1#2) nilv nilv ["e;;;"]) (UNode "A" ["x;y;"; ";"] [None])) (S_ e_ (tip "B")) in
   wfC t = true /\ write_go t = "(A[x;y;][;]:0.5[e;;;],B);" /\
-  String.length (write_go t) mod 4 <> 0 /\
   glue_go 4 (write_go t) = MDone [ITree 0 (canon_root fmt_go parse_numC t)].
-Proof. vm_compute. repeat split; try reflexivity. discriminate. Qed.
+Proof. vm_compute. repeat split; reflexivity. Qed.
 Print Assumptions C01_glue_example.
 
 Example C01_glue_example_cr :
   let t := root2 (S_ e_ (UNode "A" [String "013" "x"; String "a" (String "013" "")] [None])) (S_ e_ (tip "B")) in
   wfC t = true /\ no_lf (write_go t) = true /\
-  last_complete (phys_reads (S (String.length (write_go t))) 5 (write_go t)) = true /\
-  glue_go 5 (write_go t) = MDone [ITree 0 (canon_root fmt_go parse_numC t)].
+  glue_go 5 (write_go t) = MDone [ITree 0 (canon_root fmt_go parse_numC t)] /\
+  glue_go 2 (write_go t) = MDone [ITree 0 (canon_root fmt_go parse_numC t)].
 Proof. vm_compute. repeat split; reflexivity. Qed.
 Print Assumptions C01_glue_example_cr.
 
@@ -460,7 +450,6 @@ Example C01_full_alphabet :
   let t := root2 (S_ e_ (UNode "A" [ascii_but [93; 10]] [None]))
                  (S_ e_ (tip (ascii_but [9; 10; 11; 12; 13; 32; 40; 41; 44; 58; 59; 91; 93]))) in
   wfC t = true /\ rt_ok t = true /\ String.length (write_go t) = 246 /\
-  last_complete (phys_reads 247 16 (write_go t)) = true /\
   glue_go 16 (write_go t) = MDone [ITree 0 (canon_root fmt_go parse_numC t)].
 Proof. vm_compute. repeat split; reflexivity. Qed.
 Print Assumptions C01_full_alphabet.
